@@ -17,10 +17,10 @@ VARIANTS = [
              "        def resolve_annotated_value(value):\n            while isinstance(value, AnnotatedValue):\n                if isinstance(value, Parameter) and value.name in context:\n                    value = context[value.name]\n                else:\n                    value = value.resolve_value(context)\n            return value\n", 0)],
            ("C06", "C07")),
     fire("r4-mapfiller-memo-by-name",
-         [(FM, "        reg, index = qubit.resolve_qubit()\n        return reg[index]", "        reg, index = qubit.resolve_qubit()\n        self.__dict__.setdefault('filled', {})[qubit.name] = reg[index]\n        return self.filled[qubit.name]")],
+         [(FM, "            return qubit\n        return reg[index]", "            return qubit\n        self.__dict__.setdefault('filled', {})[qubit.name] = reg[index]\n        return self.filled[qubit.name]")],
          ("*", "MapFiller.visit_NamedQubit:table-keyed-by-reference-name"), ("C06", "C07")),
     fire("r4-mapfiller-returns-name-sexpr",
-         [(FM, "        reg, index = qubit.resolve_qubit()\n        return reg[index]", "        reg, index = qubit.resolve_qubit()\n        return (\"array_item\", reg.name, index)")],
+         [(FM, "            return qubit\n        return reg[index]", "            return qubit\n        return (\"array_item\", reg.name, index)")],
          ("*", "MapFiller.visit_NamedQubit:returns-resolved-object"), ("C06", "C07")),
     fire("r4-namedqubit-hash-by-source-name",
          [(RG, "        return hash((self.__class__, self._name, self._alias_from, self._alias_index))", "        return hash((self.__class__, self._name, self._alias_from.name, self._alias_index))")],
@@ -40,4 +40,63 @@ VARIANTS = [
          [(UN, "        inp = numpy.empty(hilb_dim, dtype=complex)\n        vec = numpy.zeros(hilb_dim, dtype=complex)\n", "        inp, vec = _workspace(hilb_dim)\n        vec[:] = 0\n"),
           (UN, "\nclass EmulatorSubcircuit(", "\nfrom functools import lru_cache\n\n\n@lru_cache(maxsize=None)\ndef _workspace(hilb_dim):\n    return (numpy.empty(hilb_dim, dtype=complex), numpy.empty(hilb_dim, dtype=complex))\n\n\nclass EmulatorSubcircuit(")],
          ("*", "_workspace:cached-mutable"), ("C03", "C16")),
+]
+
+CBD = "src/jaqalpaq/core/circuitbuilder.py"
+VARIANTS += [
+    # reverting fix 0b72e25
+    fire("r4-block-context-marker-is-identifier",
+         [(CBD, '        context_name = ("in block context", name)\n', '        context_name = f"__in_context_{name}__"\n')],
+         ("*", "Builder.in_block_context:context-key"), ("C02", "C07")),
+]
+VARIANTS += [
+    # reverting fix (open upper bound)
+    fire("r4-alias-size-frozen-at-build",
+         [(CBD, "                if src.fundamental:\n                    stop = src.size\n", "                stop = src.size\n")],
+         ("*", "Builder.build_map:frozen-size"), ("C05", "C06")),
+]
+
+FM4 = "src/jaqalpaq/core/algorithm/fill_in_map.py"
+FL4 = "src/jaqalpaq/core/algorithm/fill_in_let.py"
+SLY4 = "src/jaqalpaq/parser/slyparse.py"
+VARIANTS += [
+    # reverting parts of fix 96a041f
+    fire("r4-mapfiller-guard-parameters-only",
+         [(FM4, "        if isinstance(obj, AnnotatedValue):\n            return True\n        if isinstance(getattr(obj, \"alias_index\", None), AnnotatedValue):",
+           "        if isinstance(obj, Parameter):\n            return True\n        if isinstance(getattr(obj, \"alias_index\", None), Parameter):"),
+          (FM4, "            isinstance(bound, AnnotatedValue)\n", "            isinstance(bound, Parameter)\n")],
+         ("*", "symbolic-qubit-guard:lets"), ("C10", "C06")),
+    fire("r4-mapfiller-shadow-test-dropped",
+         [(FM4, "        if reg.name in self.shadowed:\n", "        if False:\n")],
+         ("*", "MapFiller.visit_NamedQubit:shadowed-register-name"), ("C10", "C06")),
+]
+VARIANTS += [
+    # reverting the alias-name fix
+    fire("r4-letfiller-renames-declared-alias",
+         [(FL4, "        if qubit.name != make_item_name(qubit.alias_from, qubit.alias_index):\n", "        if False:\n")],
+         ("*", "LetFiller.visit_NamedQubit:declared-name-kept"), ("C05", "C07")),
+]
+VARIANTS += [
+    # reverting fix b31d72a
+    fire("r4-memo-numeric-raw-values",
+         [(CBD, "        elif isinstance(obj, (int, float)):\n            # 1, 1.0 and True (or 0.0 and -0.0) are equal as keys but are\n            # different literals\n            return (type(obj).__name__, repr(obj))\n", "")],
+         ("*", "GateMemoizer:memo-key:numeric-literals"), ("C07", "C01")),
+    # reverting fix 672647c
+    fire("r4-lexer-number-not-finite",
+         [(SLY4, '        if token.value in (float("inf"), float("-inf")):\n', "        if False:\n")],
+         ("*", "JaqalLexer.NUMBER:finite"), ("C01", "C16")),
+]
+ES4 = "src/jaqalpaq/core/algorithm/expand_subcircuits.py"
+VARIANTS += [
+    # reverting fix d76ac30
+    fire("r4-subcircuit-expander-calls-not-relinked",
+         [(ES4, "    def visit_GateStatement(self, gate):\n", "    def _unused_visit_GateStatement(self, gate):\n")],
+         ("C09.9", "SubcircuitExpander:macro-calls-relinked"), ("C09",)),
+]
+EM4 = "src/jaqalpaq/core/algorithm/expand_macros.py"
+VARIANTS += [
+    # reverting fix bc00835
+    fire("r4-replacer-renames-declared-alias",
+         [(EM4, "        if qubit.name != make_item_name(qubit.alias_from, qubit.alias_index):\n", "        if False:\n")],
+         ("C04.9", "GateReplacer.visit_NamedQubit:declared-name-kept"), ("C04",)),
 ]
